@@ -150,7 +150,15 @@ def run(tier, seed):
     hreq, hmeta = [], []
     seen = set()
     for lib, dr, fr, label, hl in seeds:
-        for kind, b in [("seed", fr)] + mutations(fr, hl, rng, tier):
+        extra = []
+        if lib == "wrath" and dr == "server" and hl == 4 and len(fr) >= 4:
+            # the LARGE header form (3 size bytes, top bit set) on a frame that does not need it — readers must take it with the same body size —
+            # with the right size and off by one
+            sz_ = len(fr) - 2
+            for dlt in (0, -1, 1):
+                v_ = max(0, sz_ + dlt)
+                extra.append(("large-header-form", bytes([0x80 | ((v_ >> 16) & 0x7F), (v_ >> 8) & 0xFF, v_ & 0xFF]) + fr[2:]))
+        for kind, b in [("seed", fr)] + extra + mutations(fr, hl, rng, tier):
             key = (lib, dr, b)
             if key in seen:
                 continue
@@ -221,7 +229,7 @@ def run(tier, seed):
                           {"library": lib, "direction": dr, "seed": label, "fault": kind, "input_hex": b.hex(), "implementation": h[:400], "replay_cmd": f"echo '{hq[:20000]}' | {har}"})
     rep.coverage = {
         "evaluations": len(hreq), "distinct_nontrivial": len(seen) + sum(1 for x in hmeta if x[4] == "random-frame"),
-        "rule": "seeds: one (thorough: four) canonical frame per version-expanded message + every wowm test vector; faults: every prefix, every 1/2/4-byte window := 0,1,2,max,max/2,original+1,original-1, header size +-, random bytes, random frames per opcode, every string member at 254..300 (thorough ..9000) bytes; distinct = distinct (library, direction, bytes)",
+        "rule": "seeds: one (thorough: four) canonical frame per version-expanded message + every wowm test vector; faults: every prefix, every 1/2/4-byte window := 0,1,2,max,max/2,original+1,original-1, header size +-, Wrath large header form on small frames, random bytes, random frames per opcode, every string member at 254..300 (thorough ..9000) bytes; distinct = distinct (library, direction, bytes)",
         "seeds": len(seeds), "fault_kinds": dict(kinds), "outcome_classes": dict(classes.most_common(12)), "largest_single_allocation": worst_alloc[0], "largest_allocation_request": worst_alloc[1],
         "spec_theorems": dict(po["theorems"], **po_c["theorems"]), "spec_obligations": po["obligations"] + po_c["obligations"], "spec_discharged": po["discharged"] + po_c["discharged"],
         "reader_tie": tie_cov, "requests_left_unevaluated_after_hangs": sum(1 for h in ho if h.startswith("skipped")),
